@@ -36,7 +36,8 @@ pub fn predicate(name: &str, case: &Value, fail: &Fail) -> bool {
         "c06_flow_continuation_nonplain" => {
             // only when a plain scalar was scanned inside the flow collection before the line in
             // question: scanning it drops the one-column indent that polices the continuation
-            fail.category.starts_with("accepted:D06-flow-continuation-not-deeper-than-block:flow-cont:") && fail.category.ends_with(":after-plain-scalar")
+            fail.category.starts_with("accepted:D06-flow-continuation-not-deeper-than-block:flow-cont:")
+                && (fail.category.ends_with(":after-plain-scalar") || fail.category.ends_with(":inside-plain-scalar"))
         }
         _ => false,
     }
